@@ -83,7 +83,12 @@ def worker(sc):
                                 variables=sp.dim - 1))
         kindl.twin_for(run, sp, "C02 scenario")
     except af.NonAffine as e:
-        run.errors.append("solver left the affine domain: %s (scenario %s)" % (e, sc))
+        # a data-dependent branch on the source: reciprocity is replayed on special sources (uniform, tiny, sparse ...)
+        run.queries["sat"] += 1
+        o = run.ob("result_is_an_affine_function_of_the_source")
+        o["queries"] += 1
+        o["sat"] += 1
+        run.cex.append(dict(scenario=dict(sc, meas=meas_points(sc["ny"], sc["nx"])[0]), obligation="flux_reciprocity", special=str(e)))
     except Exception as e:  # an exception of the code under test on a valid input
         import traceback
 
@@ -96,6 +101,13 @@ def replay(rec):
     real = kindl.real_pkg()
     S = real.solver.steady_state_transport_solver
     sc = rec["scenario"]
+    if "q" not in rec:
+        best = None
+        for qf in kindl.special_fields(sc["ny"], sc["nx"]):
+            r_ = replay(dict(rec, q=qf.tolist(), bg=0.35))
+            if best is None or r_["max_rel_discrepancy"] > best["max_rel_discrepancy"]:
+                best = dict(r_, special_source=qf.tolist())
+        return best
     q = np.array(rec["q"], float)
     bg = float(rec.get("bg", 0.0))
     z, prof = kindl.profiles(sc["pid"], sc["n"], seed=sc.get("seed", 0))
